@@ -101,7 +101,28 @@ def r19_2(ctx):
     if ok:
         others = [bb for bb, tt in f.calls() if tt["callee"].rsplit("::", 1)[-1] in ("as_ref2", "as_number", "as_object", "as_value_slice", "as_str", "as_bool")]
         ok = all(f.dominates(first[0], bb) for bb in others)
-    ctx.ob("R19.2", "Value::eq:type-tags-first", ok, f.loc(), "the type tags of both operands are compared before any payload")
+    pair_form = False
+    if not ok:
+        # the same decision as one match on the pair of views: both operands are taken apart with as_ref2() and the
+        # variants of BOTH are dispatched on before any payload is compared (every arm is a pair of the same kind)
+        refs = [(b, t) for b, t in f.calls() if callee_is(t, "as_ref2")]
+        rp = set()
+        for b, t in refs:
+            p_, _ = _params_of(f, op_local(t["args"][0]))
+            rp |= p_
+        disc = set()
+        for b, t in f.terms():
+            if t["k"] == "switch" and op_local(t["discr"]) is not None:
+                d = f.single_def(op_local(t["discr"]))
+                if d and d[0] == "stmt" and d[3]["rv"]["k"] == "discr":
+                    sl, leaves = backward_slice(f, [d[3]["rv"]["p"][0]], through_calls=False)
+                    for lf in leaves:
+                        if lf[0] == "call" and callee_is(lf[2], "as_ref2"):
+                            p_, _ = _params_of(f, op_local(lf[2]["args"][0]))
+                            disc |= p_
+        pair_form = {1, 2} <= rp and {1, 2} <= disc
+        ok = pair_form
+    ctx.ob("R19.2", "Value::eq:type-tags-first", ok, f.loc(), "the type tags of both operands are compared before any payload" if not pair_form else "the variants of both operands' views are dispatched on before any payload is compared")
     # payloads are compared as values of their kind (Number, str, slices, objects), never as raw words: an integer
     # comparison in Value::eq compares type tags or lengths.  (The bits of 0.0 and -0.0 differ, the numbers are equal;
     # equal bits of two NaN payloads would make NaN == NaN.)
@@ -121,6 +142,21 @@ def r19_2(ctx):
     ctx.ob("R19.2", "Value::eq:no-raw-word-comparison", not raw, f.loc(raw[0] if raw else None),
            "integer comparisons in Value::eq are between type tags / lengths only" if not raw else
            "Value::eq compares two machine words that are neither type tags nor lengths: payloads compared by their bits disagree with the comparison of the values (0.0 == -0.0, NaN != NaN)")
+    if pair_form:
+        # every payload comparison (here or in a helper that receives both operands) takes one side from each operand
+        cross = []
+        for b, t in f.calls():
+            if callee_is(t, "eq", "ne") and len(t["args"]) >= 2:
+                pa = [_params_of(f, op_local(a))[0] if op_local(a) is not None else set() for a in t["args"][:2]]
+                # (parts read out of the matched pair carry both operands in their slice; what is excluded is a comparison
+                # of one operand with itself)
+                cross.append(not (pa[0] == pa[1] and len(pa[0]) == 1) and (pa[0] | pa[1]) >= {1, 2})
+            g = prog.fns.get(t["callee"])
+            if g is not None and g.crate == "sonic_rs" and g.output == "bool" and not callee_is(t, "eq", "ne", "is_empty", "is_null") and len(t["args"]) >= 2:
+                pa = [_params_of(f, op_local(a))[0] if op_local(a) is not None else set() for a in t["args"][:2]]
+                cross.append(pa[0] | pa[1] == {1, 2} and pa[0] != pa[1])
+        ctx.ob("R19.2", "Value::eq:payloads-compared-across", bool(cross) and all(cross), f.loc(), f"{len(cross)} payload comparison(s), each between a part of one operand and a part of the other")
+        return
     for acc in ("as_number", "as_value_slice", "as_object"):
         cs = [(b, t) for b, t in f.calls() if callee_is(t, acc)]
         pp = set()
